@@ -796,7 +796,11 @@ theorem idValue_eff {ρ : Type} (mm : MMX) (o : Opts) (hmm : MMOK mm) (hid : IdO
       rw [hlk _ this]
       unfold unsetSlot
       rw [hp.2]; simp only [hmany, Bool.false_eq_true, if_false]
-      cases fi.dflt <;> rfl
+      cases hd : fi.dflt with
+      | none => rfl
+      | some d =>
+        have hvd : veq fi d = true := by unfold veq; rw [hd]; simp
+        simp only [hvd, if_true]
     | some s =>
       cases s with
       | attr1 v =>
@@ -813,7 +817,8 @@ theorem idValue_eff {ρ : Type} (mm : MMX) (o : Opts) (hmm : MMOK mm) (hid : IdO
           | some d =>
             rw [hd] at hv
             simp only [hfloat, Bool.false_and, Bool.or_false, beq_iff_eq] at hv
-            simp [hv]
+            subst hv
+            simp only [Option.getD_some]
         · have : (!o.sd && veq fi v) = false := by simpa using hc
           simp only [this, Bool.false_eq_true, if_false]
       | none =>
